@@ -313,7 +313,7 @@ def to_coq(sc, impl_out):
     exp = []
     for o in snaps:
         live = set(o["live"])
-        exp.append(cl(coq_obs_order(dict(x, in_live=(x["o"] in live)), rmap) for x in o["orders"]))
+        exp.append("(%s, %s)" % (cl(coq_obs_order(dict(x, in_live=(x["o"] in live)), rmap) for x in o["orders"]), z(o["tx"][0][1])))
     tx = impl_out["tx"][0]
     aborted = impl_out["error"] is not None
     return ("{| sc_cfg := mkcfg %s %s %s %s %s %s; sc_nstrat := %s; sc_script := %s; sc_markets := %s; sc_events := %s; sc_expect := %s; sc_abort := %s; sc_tx := (%s, %s) |}"
